@@ -270,6 +270,21 @@ func genC03(r *gen.Rand) *C03Case {
 		put(filepath.Join(dir, "wa.yaml"), map[string]any{"list": []any{"wa"}, "w": "a"})
 		put(filepath.Join(dir, "wb.json"), map[string]any{"list": []any{"wb"}, "w": "b"})
 		put(filepath.Join(dir, "wc.yml"), map[string]any{"list": []any{"wc"}, "w": "c"})
+		if r.Chance(0.3) {
+			// a directory's worth of matches (more than any batch or pool
+			// size); "w10" sorts before "w2"
+			nMany := gen.PickAny(r, []int{6, 9, 12, 17, 33})
+			for k := 0; k < nMany; k++ {
+				nm := fmt.Sprintf("w%d", k)
+				doc := map[string]any{"list": []any{nm}, "w": nm}
+				if r.Chance(0.3) {
+					put(filepath.Join(dir, nm+"."+gen.PickAny(r, exts)), doc, map[string]any{"$match": nil, "own": nm})
+				} else {
+					put(filepath.Join(dir, nm+"."+gen.PickAny(r, exts)), doc)
+				}
+			}
+			c.Shape = append(c.Shape, "many-parents")
+		}
 		setParent(top, "w*", r.Chance(0.3))
 		c.Linear = false
 		c.Shape = append(c.Shape, "parent-wildcard-formats")
@@ -383,6 +398,7 @@ type c03Obs struct {
 	Want    any              `json:"want,omitempty"`
 	Loads   []string         `json:"model_loads,omitempty"`
 	Named   []string         `json:"-"` // loads that are not wildcard matches
+	Wild    []string         `json:"-"` // loads reached through a wildcard
 	// stats
 	Chain     int  `json:"-"`
 	Fired     bool `json:"-"`
@@ -588,6 +604,8 @@ func judgeC03(e *Env, pool *libsim.Pool, c *C03Case, tag string, run int64) (*c0
 		obs.Loads = append(obs.Loads, rp)
 		if !l.Wildcard {
 			obs.Named = append(obs.Named, rp)
+		} else {
+			obs.Wild = append(obs.Wild, rp)
 		}
 	}
 	if ambiguous {
@@ -604,8 +622,19 @@ func judgeC03(e *Env, pool *libsim.Pool, c *C03Case, tag string, run int64) (*c0
 				named = true
 			}
 		}
+		if !named && c.Fault != "delete" {
+			// a wildcard match that is still there but cannot be loaded
+			// (garbage, a directory, a dangling link, an I/O error) is a
+			// broken layer like any other; only its removal is a different,
+			// legitimate configuration
+			for _, l := range obs.Wild {
+				if l == c.FaultPath {
+					named = true
+				}
+			}
+		}
 		if !named {
-			return obs, nil // only a named layer of the chain must be fatal when faulted
+			return obs, nil // only a layer of the chain must be fatal when faulted
 		}
 		if err := c03ApplyFault(c, root, inv); err != nil {
 			return nil, &libsim.InfraError{Msg: err.Error()}
@@ -946,10 +975,21 @@ func RunC03(e *Env) (int, error) {
 				named = append(named, l)
 			}
 		}
+		nNamed := len(named)
+		for _, l := range obs.Wild {
+			if !seen[l] {
+				seen[l] = true
+				named = append(named, l)
+			}
+		}
 		for k := 0; k < faultsPerWorld && len(named) > 0; k++ {
 			fc := *c
 			fc.Fault = c03Faults[(int(run)+k*3+r.Intn(len(c03Faults)))%len(c03Faults)]
-			fc.FaultPath = named[r.Intn(len(named))]
+			pick := r.Intn(len(named))
+			fc.FaultPath = named[pick]
+			if pick >= nNamed && fc.Fault == "delete" {
+				fc.Fault = "truncate-to-garbage"
+			}
 			o3, err := judgeC03(e, pool, &fc, "fault", run*10+int64(k))
 			if err != nil {
 				return harness.RunResult{Err: err}
